@@ -3,7 +3,18 @@
 import asyncio
 import io
 import logging
-from typing import Any, Dict, Generator, Mapping, Optional, Set, Tuple, Union, cast
+from typing import (
+    Any,
+    Callable,
+    Dict,
+    Generator,
+    Mapping,
+    Optional,
+    Set,
+    Tuple,
+    Union,
+    cast,
+)
 
 from pyatv import const, exceptions
 from pyatv.const import (
@@ -344,10 +355,11 @@ class RaopStream(Stream):
         """
         self.playback_manager.acquire()
         audio_file: Optional[AudioSource] = None
-        takeover_release = self.core.takeover(
-            Audio, Metadata, PushUpdater, RemoteControl
-        )
+        takeover_release: Optional[Callable[[], None]] = None
         try:
+            takeover_release = self.core.takeover(
+                Audio, Metadata, PushUpdater, RemoteControl
+            )
             client, context = await self.playback_manager.setup(self.core.service)
             context.credentials = extract_credentials(self.core.service)
             context.password = self.core.service.password
@@ -397,10 +409,13 @@ class RaopStream(Stream):
 
             await client.send_audio(audio_file, file_metadata, volume=volume)
         finally:
-            takeover_release()
-            if audio_file:
-                await audio_file.close()
-            await self.playback_manager.teardown()
+            try:
+                if takeover_release:
+                    takeover_release()
+                if audio_file:
+                    await audio_file.close()
+            finally:
+                await self.playback_manager.teardown()
 
 
 class RaopRemoteControl(RemoteControl):
